@@ -266,6 +266,9 @@ func (fr *frame) loopHead(l *Loop, entry *state, phiIn map[*ssa.Phi]T) *state {
 			vc.assume(st.reach, fmt.Sprintf("(>= %s (- 1))", head[p].S))
 		}
 	}
+	for _, p := range phis {
+		fr.assumeStaticFresh(p, head[p], st)
+	}
 	// loop-carried references were allocated before this iteration
 	for _, p := range phis {
 		for _, f := range vc.allocFacts(head[p], st.next, 0) {
